@@ -343,6 +343,7 @@ struct Net {
 	/// the highest dust-exposure limit in force on (node, channel) so far in this run (the user may change it, the fee
 	/// market may move it: a node is held to the weakest limit it ever had)
 	dustcap: HashMap<(usize, usize), u64>,
+	signer_used: bool,
 	/// nodes whose user currently refuses payment events (handler returns ReplayEvent)
 	hold_events: Vec<bool>,
 	defer_drain: bool,
@@ -504,9 +505,14 @@ impl Net {
 				},
 			})
 		}).unwrap_or(0);
+		// An add is checked against the limit when it is made, and may leave later: while a monitor write of the channel is
+		// in flight (or a signer was ever slow in this run) the node is held to the weakest limit since; with nothing held
+		// the limit in force now is the one that counts from here on.
+		let held = self.signer_used || self.persisters[i].pending.lock().unwrap().iter().any(|p| p.0 == c);
 		let e = self.dustcap.entry((i, c)).or_insert(0);
-		if now > *e { *e = now; }
-		(*e).min(2_000_000_000)
+		let cap = (*e).max(now);
+		*e = if held { cap } else { now };
+		cap.min(2_000_000_000)
 	}
 
 	fn enqueue(&mut self, from: usize, to_pk: &PublicKey, w: Wire) {
@@ -1163,6 +1169,7 @@ impl Net {
 				// held by the library and comes out, in protocol order, once the signer is back
 				let i = op["node"].as_u64().unwrap() as usize;
 				let j = op["peer"].as_u64().unwrap() as usize;
+				if name == "signer_off" { self.signer_used = true; }
 				let what = op["what"].as_str().unwrap_or("sign");
 				use lightning::util::test_channel_signer::SignerOp;
 				let sop = match what { "point" => SignerOp::GetPerCommitmentPoint, "secret" => SignerOp::ReleaseCommitmentSecret, _ => SignerOp::SignCounterpartyCommitment };
@@ -1960,7 +1967,7 @@ fn build_net(run: u64, cfg: &Value, log: &Log) -> Net {
 	let mut net = Net {
 		nodes, cfgs, persisters, queues: HashMap::new(), connected, log: log.clone(), chans, hashes, points: Vec::new(),
 		pays: Vec::new(), scids, chan_ids, run, feerate: vec![feerate0; n], executed: 0, skipped: 0,
-		funding_txids: Vec::new(), extra_funding: Vec::new(), extra_broadcast: Vec::new(), mgr_snaps: vec![Vec::new(); n], mgr_clean: vec![Vec::new(); n], mgr_msgs: vec![Vec::new(); n], msgs_emitted: vec![0; n], mgr_evheld: vec![Vec::new(); n], mgr_writes: vec![Vec::new(); n], dirty: vec![HashSet::new(); n], mgr_held: vec![Vec::new(); n], reest_seen: HashSet::new(), tamper_cs: None, corrupt_onion: None, stat_ids: HashMap::new(), dustcap: HashMap::new(), hold_events: vec![false; n], defer_drain: false, intercepts: Vec::new(), intercept_next: HashMap::new(), batch_wait: None, hold_failed_only: vec![false; n], refused_logged: HashSet::new(), settling: false, sweepers: (0..n).map(|_| None).collect(), mempool: Vec::new(), spent: HashSet::new(), confirmed: HashSet::new(), saved_idx: vec![None; n], node_cfgs, txids, edges: edges.clone(),
+		funding_txids: Vec::new(), extra_funding: Vec::new(), extra_broadcast: Vec::new(), mgr_snaps: vec![Vec::new(); n], mgr_clean: vec![Vec::new(); n], mgr_msgs: vec![Vec::new(); n], msgs_emitted: vec![0; n], mgr_evheld: vec![Vec::new(); n], mgr_writes: vec![Vec::new(); n], dirty: vec![HashSet::new(); n], mgr_held: vec![Vec::new(); n], reest_seen: HashSet::new(), tamper_cs: None, corrupt_onion: None, stat_ids: HashMap::new(), dustcap: HashMap::new(), signer_used: false, hold_events: vec![false; n], defer_drain: false, intercepts: Vec::new(), intercept_next: HashMap::new(), batch_wait: None, hold_failed_only: vec![false; n], refused_logged: HashSet::new(), settling: false, sweepers: (0..n).map(|_| None).collect(), mempool: Vec::new(), spent: HashSet::new(), confirmed: HashSet::new(), saved_idx: vec![None; n], node_cfgs, txids, edges: edges.clone(),
 	};
 	for i in 0..n {
 		let _ = net.nodes[i].node.get_and_clear_needs_persistence();
